@@ -35,6 +35,7 @@ func JobQueueMain(args []string) (interface{}, error) {
 	out := fs.String("out", "", "trace output (ndjson)")
 	sched := fs.String("sched", "", "schedules file (one JSON array of labels per line) for replay")
 	storeLag := fs.Bool("storelag", false, "store listener lags")
+	fifo := fs.Bool("fifo", false, "order-sensitive workload: one JobConfig at its limit, mostly Enqueue Jobs")
 	jobsFirst := fs.Bool("jobsfirst", false, "on restart the Job informer lists before the JobConfig informer")
 	applied := fs.Bool("applied", false, "applied-but-error faults")
 	jcsync := fs.Bool("jcsync", false, "run jobconfigcontroller")
@@ -71,6 +72,9 @@ func JobQueueMain(args []string) (interface{}, error) {
 			o := JQOpts{NJC: 1 + rng.Intn(2), StoreLag: *storeLag, JobsFirst: *jobsFirst, JCSync: *jcsync, MaxJobs: 2 + rng.Intn(*maxJobs-1)}
 			for c := 0; c < o.NJC; c++ {
 				o.MaxC = append(o.MaxC, 1+rng.Intn(2))
+			}
+			if *fifo {
+				o.Fifo, o.NJC, o.MaxC, o.MaxJobs = true, 1, []int{1}, 4+rng.Intn(2)
 			}
 			q := NewJQ(o, tr, r)
 			q.Reset()
